@@ -7,6 +7,8 @@
   copy of `src/tabs.rs` (which uses binary search, `partition_point`, `skip_while`, `step_by`).
 
   Covered functions: HTS, TBC (0 / 3), CTC (0 / 2 / 5), HT, CHT n, CBT n; `Terminal::resize`.
+  Frame clause ("tabs-persist"): any event none of whose functions satisfies `setsTabs` leaves the
+  stop vector as it is.
 -/
 import Avt.Spec.Base
 
@@ -92,6 +94,15 @@ def tabSpec (t : Terminal) : Function → Terminal
 def specStep (t : Terminal) (f : Function) : Option Terminal :=
   if isTabOp f then some (tabSpec t f) else none
 
+/-- The functions that may change the stop vector: HTS, TBC, CTC (they edit it), RIS (back to the
+    defaults) and XTWINOPS (a resize, when enabled).  Everything else — HT / CHT / CBT themselves,
+    printing, erasing, scrolling, save / restore cursor, DECSTR, every DEC mode in both directions
+    (entering and leaving the alternate screen included) — leaves the stops exactly as they are
+    (`Avt.C18_tabs_persist`).  A resize has its own rule (`resizeRef`). -/
+def setsTabs : Function → Bool
+  | .hts | .tbc _ | .ctc _ | .ris | .xtwinops _ _ => true
+  | _ => false
+
 /-! ### oracle -/
 
 def checkStep (ev : StepEv) : List Verdict :=
@@ -109,6 +120,10 @@ def checkStep (ev : StepEv) : List Verdict :=
       match foldSpec specStep ev.funs p with
       | some expected => [check "tab-op" true (n == afterCall ev.kind expected)]
       | none => [])
+  -- the stop vector is state that only HTS / TBC / CTC, RIS and a resize may change
+  ++ (if !isResize && !ev.funs.isEmpty && ev.funs.all (fun f => !setsTabs f) then
+        [check "tabs-persist" (p.tabs != tabsRef p.cols) (n.tabs == p.tabs)]
+      else [])
 
 def checkNew (cols _rows : Nat) (_lim : Option Nat) (st : Vt) : List Verdict :=
   [ check "new-has-default-stops" true (st.terminal.tabs == tabsRef cols),
